@@ -61,6 +61,20 @@ WitnessPresent(e) ==
       [] e.op \in {"div", "div_assign"} -> IsUnit(e.y, e.m, I(e.w_s), I(e.w_t))
       [] OTHER -> TRUE
 
+(* ---- beyond the listed property: Show for Modular (rational reconstruction), prime moduli ------------------------ *)
+RECURSIVE DigitsOfN(_)
+DigitsOfN(k) == IF k < 10 THEN <<48 + k>> ELSE DigitsOfN(k \div 10) \o <<48 + (k % 10)>>
+DecN(k) == IF k < 0 THEN <<45>> \o DigitsOfN(0 - k) ELSE DigitsOfN(k)
+\* show(): the first denominator 1..min(mint_max, M-1) (1 only if mint_rational is off), then the first numerator
+\* -mint_max..mint_max, with numerator / denominator = the value in Z/M; "?v" (or "v" when mint_max = 0) if there is none
+ShowWant(v, m, mx, rat) ==
+    LET maxden == IF rat THEN (IF mx < m - 1 THEN mx ELSE m - 1) ELSE 1
+        C == {p \in (1 .. maxden) \X ((0 - mx) .. mx) : ModN(p[2] - v * p[1], m) = 0}
+    IN IF C # {}
+       THEN LET best == CHOOSE p \in C : \A q \in C : p[1] < q[1] \/ (p[1] = q[1] /\ p[2] <= q[2])
+            IN IF best[1] = 1 THEN DecN(best[2]) ELSE DecN(best[2]) \o <<47>> \o DecN(best[1])
+       ELSE IF mx = 0 THEN DecN(v) ELSE <<63>> \o DecN(v)
+
 AllDigits(sq) == Len(sq) > 0 /\ \A i \in 1 .. Len(sq) : sq[i] >= 48 /\ sq[i] <= 57
 IsDecimal(sq, mag) == AllDigits(sq) /\ (Len(sq) > 1 => sq[1] # 48) /\ BNFromDigits(sq) = mag
 
@@ -74,6 +88,10 @@ Step(e) ==
             IF "panic" \in DOMAIN e THEN Mismatch(l, e, "must not panic")
             ELSE /\ (~WitnessPresent(e)) => Mismatch(l, e, "harness bug: coprimality witness invalid")
                  /\ (~BigOK(e)) => Mismatch(l, e, "result is not the canonical representative of the exact result")
+      [] e.ev = "show" ->
+            LET B == {i \in 1 .. Len(e.rows) : e.rows[i][2] # ShowWant(e.rows[i][1], e.m, e.max, e.rational)}
+            IN (B # {}) => Mismatch(l, [ev |-> "show", op |-> "show", m |-> e.m, max |-> e.max, rational |-> e.rational],
+                                    [wrong |-> {<<e.rows[i][1], e.rows[i][2], ShowWant(e.rows[i][1], e.m, e.max, e.rational)>> : i \in B}])
       [] e.ev = "txt" ->
             (~(IsDecimal(e.display, e.res) /\ e.debug = e.display /\ e.written = e.display)) =>
                 Mismatch(l, e, "rendering is not the decimal text of the canonical representative")
